@@ -34,6 +34,9 @@ KNOWN_RAW = "DecompressorMissingSearchesRaw"
 GEN_TARGETS = ["close_is_error", "select_strategy", "should_preprocess", "should_decompress", "select_binary",
                "binary_detection"]
 PIPE_BUF = 65536
+# a child is certainly still writing when its reader goes away only if its output exceeds what the reader may have
+# taken in its reads before stopping (at most one 64 KiB buffer) plus what a pipe can hold (64 KiB): BIG is 512 KB
+CUT_SHORT_FOR_SURE = 4 * PIPE_BUF
 
 
 def sh_quote_bytes(b):
@@ -48,6 +51,7 @@ def check_library(ctx, rng, n, big_path, big_bytes):
     for _ in range(n):
         kind = rng.choice(["small", "small", "small", "bigcat", "bigfail", "spawn", "noisy"])
         want = rng.choice([1, 1, 7, 4096])
+        # one short write: the whole output is in the pipe before the reader can have seen any of it
         out = bytes(rng.choice(b"ab\nhit x\x00") for _ in range(rng.randint(0, 40)))
         err = bytes(rng.choice(b"e \n") for _ in range(rng.choice([0, 0, 1, 5])))
         code = rng.choice([0, 0, 1, 2, 127, 255])
@@ -77,8 +81,9 @@ def check_library(ctx, rng, n, big_path, big_bytes):
         cases.append(dict(kind=kind, script=script, child=child, want=want, limit=limit))
     clines = [vlist([vbytes(c["script"].encode()), str(c["want"]), vopt(None if c["limit"] is None else str(c["limit"]))])
               for c in cases]
-    mlines = [vlist(["1", vbool(c["child"]["spawn"]), vbytes(c["child"]["out"]), vbytes(c["child"]["err"][:20]),
-                     vbool(c["child"]["ok_full"]), vbool(c["child"]["ok_early"]), str(c["want"]),
+    # the model's consumer only counts bytes: a big output is represented by a 400-byte prefix (every limit is < 400)
+    mlines = [vlist(["1", vbool(c["child"]["spawn"]), vbytes(c["child"]["out"][:400]), vbytes(c["child"]["err"][:20]),
+                     vbool(c["child"]["ok_full"]), vbool(c["child"]["ok_early"]), str(min(c["want"], 64)),
                      vopt(None if c["limit"] is None else str(c["limit"])), "0", "()"]) for c in cases]
     co = vlib.code(1801, clines, shards=8)
     mo = vlib.model(1801, mlines, shards=8)
@@ -94,9 +99,9 @@ def check_library(ctx, rng, n, big_path, big_bytes):
         av, bv = parse_val(a), parse_val(b)
         a_fed = av[1] if isinstance(av[1], bytes) else b""
         b_fed = bv[1] if isinstance(bv[1], bytes) else b""
-        exact = c["want"] == 1 or c["limit"] is None or len(c["child"]["out"]) < PIPE_BUF
+        big = len(c["child"]["out"]) > 400
         ok = av[0] == bv[0]
-        if ok and exact and c["want"] == 1:
+        if ok and c["want"] == 1 and not big:
             ok = a_fed == b_fed
         elif ok:
             out = c["child"]["out"]
@@ -255,7 +260,7 @@ def check_pre(ctx, rng, n, big_path, big_bytes):
             c["ref_args"] = base + ["-e", "hit", "plain.txt"]
         c["dir"] = d
         jobs.append(c)
-    res = K.pmap(lambda c: (K.run_rg(c["args"], c["dir"], timeout=60), K.run_rg(c["ref_args"], c["dir"], timeout=60)), jobs)
+    res = K.pmap(lambda c: (K.run_rg(c["args"], c["dir"], timeout=240), K.run_rg(c["ref_args"], c["dir"], timeout=240)), jobs)
     # model: the consumer either reads to EOF or stops after the first chunk
     mlines = []
     for c in cases:
@@ -269,7 +274,7 @@ def check_pre(ctx, rng, n, big_path, big_bytes):
         stand_in = out if len(out) <= 200 else out[:100] + b"." * 200
         limit = None if not stops else 1
         mlines.append(vlist(["1", vbool(ch["spawn"]), vbytes(stand_in), vbytes(ch["err"][:50]), vbool(ch["ok_full"]),
-                             vbool(ch["ok_early"] if len(out) > PIPE_BUF else ch["ok_full"]), "100",
+                             vbool(ch["ok_early"] if len(out) > CUT_SHORT_FOR_SURE else ch["ok_full"]), "100",
                              vopt(None if limit is None else str(limit)), "0", "()"]))
     mo = vlib.model(1801, mlines)
     stat = ctx.cov.setdefault("pre_kinds", {})
@@ -283,7 +288,7 @@ def check_pre(ctx, rng, n, big_path, big_bytes):
                       rg=dict(status=r["status"], out=repr(r["out"][:300]), err=repr(r["err"][:300])),
                       ref=dict(status=ref["status"], out=repr(ref["out"][:300])), model=m)
         if r["timeout"]:
-            ctx.violation("rg --pre did not finish within 60 s (stderr volume %d KiB)" % c["stderr_kb"], replay)
+            ctx.violation("rg --pre did not finish within 240 s (stderr volume %d KiB)" % c["stderr_kb"], replay)
             continue
         if not m.startswith("("):
             ctx.violation("model failed: " + m, replay, nfi=True)
@@ -521,13 +526,14 @@ def run(ctx):
         ctx.violation("setpriv is not available", dict(kind="env"), nfi=True)
         return
     ctx.cov["rule"] = ("library level: real CommandReader on sh children (small output with exit 0..255 and stderr; up to 2 MB on "
-                       "stderr; exec cat of an 84 KB file cut short -> SIGPIPE; failing after 84 KB; unspawnable), reads of "
+                       "stderr; exec cat of a 525 KB file cut short -> SIGPIPE; failing after 525 KB; unspawnable), reads of "
                        "1/7/4096 bytes, stop after n bytes or at EOF. CLI: rg --pre with 14 script kinds x none/-m1/-q/-l/-c x "
                        "-j1/-j3, selection over 6 file names x 9 --pre-glob sets x -z, -z over gzip/bzip2/xz valid and "
                        "truncated x flags. non-trivial = anything but a plain echo.")
     root = K.mktree("c18big")
     big_path = os.path.join(root, "big.txt")
-    big_bytes = b"".join(b"filler line %06d without the word\n" % i for i in range(2400))      # 84 KB > pipe buffer
+    big_bytes = b"".join(b"filler line %06d without the word\n" % i for i in range(15000))     # 525 KB, see CUT_SHORT_FOR_SURE
+    assert len(big_bytes) > CUT_SHORT_FOR_SURE + 2 * PIPE_BUF
     with open(big_path, "wb") as f:
         f.write(big_bytes)
     os.chmod(big_path, 0o644)
@@ -542,7 +548,7 @@ def run(ctx):
         "the child is abstract: {spawn_ok, stdout, stderr, success when fully read, success when cut short}; the check "
         "derives these from the generated script by construction",
         "the consumer is abstract in the theorems; at CLI level it is 'reads to EOF' or 'stops in the first 64 KiB buffer'",
-        "PARTIAL: large stderr never blocks = liveness of the stderr thread; exercised up to 4 MiB under a 60 s limit",
+        "PARTIAL: large stderr never blocks = liveness of the stderr thread; exercised up to 4 MiB under a 240 s limit",
         "I/O errors of wait()/read() themselves (other than the child's failure) are outside the model",
     ]
 
